@@ -2,5 +2,6 @@
 # lists the seeded patches that no longer apply to /repo's working tree
 for d in /verif/seeded/*/; do
   [ -f "$d/patch.diff" ] || continue
+  grep -q '"superseded"' "$d/meta.json" 2>/dev/null && continue   # overtaken by a library fix, kept for the record
   git -C "${VERIF_REPO:-/repo}" apply --check "$d/patch.diff" 2>/dev/null || echo "DOES NOT APPLY: $(basename $d)"
 done
